@@ -29,6 +29,7 @@ class C18(Prop):
     # ShareObserverThreads of skip_until) is the SAME model cell as the local one (GenTie/*Threads.lean)
     tie_modules = {
         "RxModel.GenTie.SubjectThreads": [],
+        "RxModel.GenTie.MergeAllThreads": [],
         "RxModel.GenTie.SubscriberThreads": [],
         "RxModel.GenTie.MergeThreads": ['merge'],
         "RxModel.GenTie.WiringMergeThreads": ['merge'],
